@@ -492,7 +492,10 @@ class MetadorGroup(MetadorNode):
             "expand_refs": True,
             "without_attrs": without_attrs,
         }
-        self.__wrapped__.copy(source, dst_path, **copy_kwargs)  # RAW
+        # NOTE: raw copy needs the raw source (a wrapped node hides metadata and
+        # is not accepted as source by all drivers)
+        raw_source = source if isinstance(source, str) else src_node.__wrapped__
+        self.__wrapped__.copy(raw_source, dst_path, **copy_kwargs)  # RAW
         dst_node = self[dst_path]  # exists now
 
         if src_is_dataset and not without_meta:
